@@ -15,7 +15,7 @@ Open Scope bool_scope.
 (* The text this matcher was written from; [regex_text_current] in
    TimePatternProofs.v requires the generated REGEX_SPEC to be this string. *)
 Definition REGEX_SPEC_modelled : string :=
-  "(\*|\*\d|\d\*|\d\d?):(\d\d|\d\*|\*\d|\*)(?=(\s|$))".
+  "(\*|\*\d|\d\*|\d\d?):(\d\d|\d\*|\*\d|\*)(?=(\s|$|#))".
 
 Inductive pelem := PStar | PDigit.
 
@@ -52,12 +52,12 @@ Definition hour_alts : list (list pelem) :=
 Definition minute_alts : list (list pelem) :=
   [[PDigit; PDigit]; [PDigit; PStar]; [PStar; PDigit]; [PStar]].
 
-(* (?=(\s|$)): white space next, or the end of the string, or a final line feed *)
+(* (?=(\s|$|#)): white space next, or the end of the string (or a final line feed), or the
+   number sign that starts a comment *)
 Definition lookahead_ok (rest : string) : bool :=
   match rest with
   | EmptyString => true
-  | String c EmptyString => re_is_space c
-  | String c _ => re_is_space c
+  | String c _ => re_is_space c || Ascii.eqb c "#"%char
   end.
 
 Fixpoint first_some {A B} (f : A -> option B) (l : list A) : option B :=
